@@ -124,6 +124,9 @@ def gen_case(rng, kind):
                           "<plantedstmt> = a ||| b;", "<plantedstmt> ::= fast\n         | slow \"desc\" extra) ;", "<plantedstmt@bash> = {{{ ls }} ;",
                           "<plantedstmt> = [ x ;", "<plantedstmt> a;"])
         k = rng.randrange(1, len(stmts) + 1)
+        if "{{{" in bad:
+            # an unterminated `{{{` is closed by the `}}}` of any later statement, and the file then parses: it goes last
+            k = len(stmts)
         stmts.insert(k, " " * rng.randint(0, 5) + bad)
         expect = [("error", "Parse error", "<plantedstmt" if bad.startswith("<") else "plantedstmt")]
     # the file may begin with blank lines, comments or indentation
